@@ -280,7 +280,52 @@ fn check_in_packet(input: &super::c10::ParseIn, case: &mut Case) -> Result<(), F
     // the record is reference-encoded with foreign compression (pointers also inside RRSIG, NSEC, SRV ... names),
     // followed by another record: a name that is decoded wrongly, or after which parsing resumes at the wrong
     // offset, changes the observed fields
-    super::c10::check_parse(input, case).map_err(|f| Fail::new(format!("c06:in-packet:{}", f.sig.trim_start_matches("c10:")), f.msg))
+    // Only the names are this property's business: what the other RDATA fields hold is C10's.
+    let (rec, choices, trail) = input;
+    let code = rec.rdata.code();
+    case.nontrivial = true;
+    case.class(format!("type:{}", code));
+    let mut p = APacket { id: 1, flags: 0x8400, ..Default::default() };
+    p.questions.push(AQuestion { name: rec.name.clone(), qtype: 255, qclass: 1, unicast: false });
+    p.answers.push(rec.clone());
+    let trailing = ARecord { name: AName::from_strs(&["t", "example"]), class: 1, cache_flush: false, ttl: 1, rdata: ARData::Typed { code: 1, fields: vec![Val::U32(0x7f000001)] } };
+    if *trail {
+        p.answers.push(trailing.clone());
+    }
+    let plain = encode_message(&p, &EncOpts::plain());
+    let wire = if choices.is_empty() { plain.clone() } else { encode_message(&p, &EncOpts::foreign(choices.clone())) };
+    if !choices.is_empty() {
+        case.class("foreign-compression");
+    }
+    let pk = match parse(&wire)? {
+        Ok(pk) => pk,
+        Err(e) => {
+            // refused: a claim only if the same message without pointers is accepted (then the pointers, all backward
+            // and onto label starts of earlier names, are what was refused)
+            if !choices.is_empty() && parse(&plain)?.is_ok() {
+                return Err(Fail::new(format!("c06:in-packet:rejected:{}", code), format!("a type {} record whose names use backward compression pointers is rejected ({:?}) while the same message without pointers is accepted; wire {}", code, e, hex(&wire))));
+            }
+            case.class("rejected-also-without-pointers:no-claim");
+            return Ok(());
+        }
+    };
+    ensure!(pk.answers.len() == p.answers.len() && pk.questions.len() == 1, "c06:in-packet:count", "type {}: {} questions / {} answers", code, pk.questions.len(), pk.answers.len());
+    let names_of = |r: &ARecord| -> Vec<AName> {
+        let mut v = vec![r.name.clone()];
+        if let ARData::Typed { code, fields } = &r.rdata {
+            v.extend(embedded_names(*code, fields).into_iter().map(|(n, _)| n.clone()));
+        }
+        v
+    };
+    let o = lib("observe", || crate::bridge::observe_record(&pk.answers[0]))?;
+    ensure!(oname(&pk.questions[0].qname) == rec.name, "c06:in-packet:names", "type {}: question name decoded as {:?}", code, oname(&pk.questions[0].qname));
+    ensure!(names_of(&o) == names_of(rec), "c06:in-packet:names", "type {}: owner and embedded names decoded as {:?}, the message holds {:?}", code, names_of(&o), names_of(rec));
+    if *trail {
+        // parsing resumed at the right place: the next record is intact
+        let t = lib("observe", || crate::bridge::observe_record(&pk.answers[1]))?;
+        ensure!(t == trailing, "c06:in-packet:next-record", "the record after a type {} record parsed as {:?}", code, t);
+    }
+    Ok(())
 }
 
 /// a record whose RDATA holds names followed by fixed fields (SOA, MINFO, RP, MX, SRV, NAPTR, KX, ...), encoded with
@@ -494,10 +539,36 @@ fn check_in_large(input: &(crate::gen::Sharing, Vec<u8>), case: &mut Case) -> Re
     if m.len() > 16384 {
         case.class("over-16k");
     }
-    let pk = parse(&m)?.map_err(|e| Fail::new("c06:in-packet-large:rejected", format!("a well-formed {}-byte message with pointers to offsets up to 16383 was rejected: {:?}", m.len(), e)))?;
+    let pk = match parse(&m)? {
+        Ok(pk) => pk,
+        Err(e) => {
+            // a claim only if the same message without pointers is accepted
+            let plain = encode_message(&p, &EncOpts::plain());
+            if plain.len() <= 65535 && parse(&plain)?.is_ok() {
+                return Err(Fail::new("c06:in-packet-large:rejected", format!("a well-formed {}-byte message with pointers to offsets up to 16383 was rejected ({:?}) while its pointer-free form is accepted", m.len(), e)));
+            }
+            case.class("rejected-also-without-pointers:no-claim");
+            return Ok(());
+        }
+    };
     let o = lib("observe", || crate::bridge::observe(&pk))?;
     case.nontrivial = m.len() > 8192;
-    ensure!(o == p, "c06:in-packet-large:names", "{}-byte message: {}", m.len(), crate::bridge::diff(&p, &o));
+    // names only (what the other fields hold is C02's / C10's business)
+    let names = |x: &APacket| -> Vec<AName> {
+        let mut v: Vec<AName> = x.questions.iter().map(|q| q.name.clone()).collect();
+        for r in x.records() {
+            v.push(r.name.clone());
+            if let ARData::Typed { code, fields } = &r.rdata {
+                v.extend(embedded_names(*code, fields).into_iter().map(|(n, _)| n.clone()));
+            }
+        }
+        v
+    };
+    let (got, want) = (names(&o), names(&p));
+    if got != want {
+        let at = got.iter().zip(want.iter()).position(|(a, b)| a != b);
+        return Err(Fail::new("c06:in-packet-large:names", format!("{}-byte message: {} names decoded, {} in the message; first difference at name #{:?}: {:?} vs {:?}", m.len(), got.len(), want.len(), at, at.map(|i| &got[i]), at.map(|i| &want[i]))));
+    }
     Ok(())
 }
 
